@@ -718,6 +718,13 @@ class Driver:
                         label=getattr(getattr(f, '__wrapped__', f), '__name__', 'call'))
         return r
 
+    def arr(self, case, M):
+        """The matrix delivered the way the case says (memory order, read-only, view, integer dtype)."""
+        rep = case.get('arep')
+        if rep:
+            self.ctx.count('matrix_delivered_as:' + rep)
+        return core.rep_array(rep, M)
+
     def begin(self, case, *label):
         self.M.case = case
         self.M.label = tuple(label)
@@ -771,7 +778,7 @@ class Driver:
         lat, lon = case['lat'], case['lon']
         first, second = (self.S.vcv_cart2local, self.S.vcv_local2cart) if case['first'] == 'cart2local' \
             else (self.S.vcv_local2cart, self.S.vcv_cart2local)
-        out = self.call(first, V, lat, lon)
+        out = self.call(first, self.arr(case, V), lat, lon)
         if V.shape != (3, 3) or out is None or getattr(out, 'shape', None) != (3, 3):
             return
         back = self.call(second, out, lat, lon)
@@ -797,13 +804,13 @@ class Driver:
     # error ellipse ------------------------------------------------------------------------------------------------
     def do_error_ellipse(self, case):
         self.begin(case, case.get('mclass', '?'))
-        self.call(self.S.error_ellipse, np.array(case['vcv'], dtype=float))
+        self.call(self.S.error_ellipse, self.arr(case, np.array(case['vcv'], dtype=float)))
 
     # relative error -----------------------------------------------------------------------------------------------
     def do_relative_error(self, case):
         self.begin(case, case.get('jclass', '?'))
-        self.call(self.S.relative_error, case['lat'], case['lon'], np.array(case['var1'], dtype=float),
-                  np.array(case['var2'], dtype=float), np.array(case['cov12'], dtype=float))
+        self.call(self.S.relative_error, case['lat'], case['lon'], self.arr(case, np.array(case['var1'], dtype=float)),
+                  self.arr(case, np.array(case['var2'], dtype=float)), self.arr(case, np.array(case['cov12'], dtype=float)))
 
     # coverage factor --------------------------------------------------------------------------------------------
     def do_k_val95(self, case):
@@ -965,7 +972,25 @@ def _mix(drv, ctx, rnd, n):
             jclass, v1, v2, c12 = gen_joint(rnd)
             cases.append({'fn': 'relative_error', 'lat': lat, 'lon': lon, 'var1': v1.tolist(), 'var2': v2.tolist(),
                           'cov12': c12.tolist(), 'jclass': jclass})
+        if i % 7 == 3:
+            # whole-number variances, as a caller types them (np.diag([4, 9, 25]), a column np.array([[4], [9], [25]])):
+            # representable in an integer dtype
+            w = [float(rnd.randint(0, 30)) for _ in range(3)]
+            o = rnd.choice([0.0, 0.0, 1.0, 2.0])
+            W = [[w[0] + o, o, 0.0], [o, w[1] + o, 0.0], [0.0, 0.0, w[2]]]
+            cases.append({'fn': 'vcv', 'lat': lat, 'lon': lon, 'm': W, 'mclass': 'whole-numbers', 'arep': 'int64',
+                          'first': 'cart2local' if rnd.random() < 0.5 else 'local2cart', 'ellipse_of_local': True})
+            cases.append({'fn': 'vcv', 'lat': lat, 'lon': lon, 'm': [[w[0]], [w[1]], [w[2]]], 'mclass': 'column:whole-numbers',
+                          'arep': 'int64', 'first': 'cart2local' if rnd.random() < 0.5 else 'local2cart'})
+            cases.append({'fn': 'error_ellipse', 'vcv': W, 'mclass': 'whole-numbers', 'arep': 'int64'})
+            cases.append({'fn': 'relative_error', 'lat': lat, 'lon': lon, 'var1': W, 'var2': np.diag(w).tolist(),
+                          'cov12': [[1.0, 0.0, 0.0], [0.0, 0.0, 0.0], [0.0, 1.0, 0.0]], 'jclass': 'whole-numbers', 'arep': 'int64'})
         for c in cases:
+            if 'arep' not in c and c['fn'] in ('vcv', 'error_ellipse', 'relative_error'):
+                # the same matrix in another memory order, read-only, as a view into a larger array, rebuilt from lists
+                ar = core.choose_array_rep(rnd, 0.2)
+                if ar and ar != 'int64':
+                    c['arep'] = ar
             if i == 0 and c['fn'] in ('vcv', 'relative_error', 'enu_xyz'):
                 ctx.sample(c)
             drv.run(c)
